@@ -10,6 +10,7 @@ check(): every event sequence on a writer path ending in Ok is accepted by the r
 (subset construction on the reader side), and the reader can terminate where the writer does.
 Nothing is executed: the interpreter only propagates constants, Ok/Err tags and decoded constants.
 """
+import re
 from collections import deque
 from .facts import op_place, op_const, const_int, callee_def, AnchorMissing
 from . import flow
@@ -163,7 +164,14 @@ class Machine:
     def rvalue(self, body, env, r, dest_ty):
         k = r["k"]
         if k == "use":
-            return self.val(body, env, r["op"]) if _derived(env, r["op"]) else TOP
+            v0 = self.val(body, env, r["op"]) if _derived(env, r["op"]) else TOP
+            if (v0 is TOP or not v0) and re.search(r"statistical_codec::Codec(Correction|Misprediction)$", dest_ty or ""):
+                # a correction context chosen into a variable (`let ctx = if .. { A } else { B }`)
+                from . import flow as _flow
+                rv = _flow.resolve_variant(body, r["op"])
+                if rv is not None and rv[2] is not None:
+                    return ("i", rv[2])
+            return v0
         if k == "cast" and r["ck"] == "IntToInt":
             return self.val(body, env, r["op"]) if _derived(env, r["op"]) else TOP
         if k == "unop" and r["op"] == "Not":
@@ -204,6 +212,8 @@ class Machine:
             if any(v is not TOP and v and v[0] == "i" for v in vals):
                 return ("tup", tuple(v if (v is not TOP and v and v[0] == "i") else None for v in vals))
             return TOP
+        if k == "agg" and r.get("ak") == "adt" and not r.get("ops") and re.search(r"statistical_codec::Codec(Correction|Misprediction)$", r.get("adt", "")) and r.get("discr") is not None:
+            return ("i", r["discr"])                 # a correction context written as a unit variant
         if k == "agg" and r.get("ak") == "adt":
             if r["adt"] in ("std::result::Result", "std::ops::ControlFlow", "std::option::Option"):
                 pay = None
